@@ -29,6 +29,18 @@ Proof. exact load_permutation_canon. Qed.
 Theorem C13_dataset_names : forall p, p <> [] -> forallb key_ok p = true -> split (join p) = p.
 Proof. exact join_split. Qed.
 
+(* the same through the dataset names the file really has (paths joined with ".", split again on loading) *)
+Theorem C13_roundtrip_through_names : forall kvs, wf (VDict kvs) = true ->
+  VDict (load_named (save_named kvs)) = canon (VDict kvs).
+Proof. exact load_named_save_named. Qed.
+
+(* the well-formedness guard cannot be dropped: a key containing "." (a parameter named "x.y") is saved and reloads as a
+   nested dictionary — finding F36, recorded in known_findings.json *)
+Theorem C13_roundtrip_dotted_key_refuted :
+  exists kvs, nodup_keys (map fst kvs) = true /\ forallb (fun k => negb (String.eqb k "")) (map fst kvs) = true
+              /\ VDict (load_named (save_named kvs)) <> canon (VDict kvs).
+Proof. exact named_roundtrip_dotted_key_refuted. Qed.
+
 Theorem C13_canon_idempotent : forall v, canon (canon v) = canon v.
 Proof. exact canon_idem_all. Qed.
 
@@ -42,3 +54,5 @@ Print Assumptions C13_decode_encode.
 Print Assumptions C13_order_independent.
 Print Assumptions C13_dataset_names.
 Print Assumptions C13_canon_idempotent.
+Print Assumptions C13_roundtrip_through_names.
+Print Assumptions C13_roundtrip_dotted_key_refuted.
